@@ -59,6 +59,9 @@ typedef struct {
 
 static TestC tests[MAXT];
 static int ntests;
+typedef struct { char path[16384]; ActC *setup, *teardown; int nsetup, nteardown; } SuiteC;
+static SuiteC *suites;      /* suites that have scripted fixtures ("fixture" line) */
+static int nsuites;
 static int events_fd = -1;
 static char *mock_names[256];
 static pid_t main_pid;
@@ -103,12 +106,15 @@ static volatile int program_global;
 static int probe_fn(void) { return (int)mock(); }
 static void setter_fn(int *out) { mock(out); }
 
+static void late_failure(void) { assert_that(0, is_equal_to(1)); }      /* a check that fails in an exit handler of the test's process */
+
 static void do_acts(ActC *acts, int n) {
     for (int i = 0; i < n; i++) {
         switch (acts[i].kind) {
         case 'P': assert_that(1, is_equal_to(1)); break;
         case 'F': assert_that(i, is_equal_to(-1)); break;
         case 'S': skip_test(); break;
+        case 'A': atexit(late_failure); break;
         case 'X': assert_true_with_message(0, "%s", acts[i].text); break;           /* the text as an argument */
         case 'Y': {                                                                  /* the text as the (percent-doubled) format, as assert_that() passes it */
             char *doubled = (char *)malloc(2 * strlen(acts[i].text) + 1), *d = doubled;
@@ -149,8 +155,22 @@ static void do_acts(ActC *acts, int n) {
 static void scripted_body(void) { TestC *t = current(); log_event("body"); decl_counter = 0; if (t) { running_file = t->spec.filename; do_acts(t->body, t->nbody); } }
 static void ctx_setup(void) { TestC *t = current(); log_event("ctxSetup"); if (t) do_acts(t->setup, t->nsetup); }
 static void ctx_teardown(void) { TestC *t = current(); log_event("ctxTeardown"); if (t) do_acts(t->teardown, t->nteardown); }
-static void suite_setup(void) { log_event("suiteSetup"); }
-static void suite_teardown(void) { log_event("suiteTeardown"); }
+/* A suite's fixtures run in the reporting process around its sub-suites (breadcrumb = the suite) and in the
+ * test's process around each of its own tests (breadcrumb = the suite + the test) */
+static SuiteC *current_suite(void) {
+    static char path[70000];
+    current_path(path);
+    for (int pass = 0; pass < 2; pass++) {
+        for (int i = 0; i < nsuites; i++)
+            if (strcmp(suites[i].path, path) == 0) return &suites[i];
+        char *slash = strrchr(path, '/');
+        if (!slash) break;
+        *slash = 0;
+    }
+    return NULL;
+}
+static void suite_setup(void) { SuiteC *s = current_suite(); log_event("suiteSetup"); if (s) do_acts(s->setup, s->nsetup); }
+static void suite_teardown(void) { SuiteC *s = current_suite(); log_event("suiteTeardown"); if (s) do_acts(s->teardown, s->nteardown); }
 
 static CgreenContext scripted_ctx = { "Ctx", "scenario", &ctx_setup, &ctx_teardown };
 
@@ -164,6 +184,7 @@ static int parse_acts(char *s, ActC **out) {
         if (!strcmp(tok, "P")) a.kind = 'P';
         else if (!strcmp(tok, "F")) a.kind = 'F';
         else if (!strcmp(tok, "S")) a.kind = 'S';
+        else if (!strcmp(tok, "AX")) a.kind = 'A';
         else if (tok[0] == 'X' || tok[0] == 'Y') { a.kind = tok[0]; a.text = unhex_text(tok + 1); }
         else if (!strcmp(tok, "MP")) a.kind = 'p';
         else if (!strcmp(tok, "MF")) a.kind = 'f';
@@ -201,6 +222,7 @@ int main(int argc, char **argv) {
     main_pid = getpid();
     for (int i = 0; i < 256; i++) { char nm[16]; snprintf(nm, sizeof nm, "mf%d", i); mock_names[i] = strdup(nm); }
 
+    ActC *pre = NULL; int npre = 0;
     TestSuite *stack[MAXS];
     static char paths[MAXS][16384];
     int sp = 0;
@@ -220,6 +242,18 @@ int main(int argc, char **argv) {
             if (sp > 0) { add_suite_(stack[sp - 1], strdup(name), s); snprintf(paths[sp], sizeof paths[sp], "%s/%s", paths[sp - 1], name); }
             else { root = s; snprintf(paths[sp], sizeof paths[sp], "%s", name); }
             stack[sp++] = s;
+        } else if (!strncmp(buf, "pre ", 4)) {
+            /* acts executed by the program itself before the run starts */
+            npre = parse_acts(buf + 4, &pre);
+        } else if (!strncmp(buf, "fixture ", 8)) {
+            /* scripted fixtures of the suite just begun: "fixture <setup acts>;<teardown acts>" */
+            if (!suites) suites = (SuiteC *)calloc(MAXS, sizeof(SuiteC));
+            SuiteC *su = &suites[nsuites++];
+            snprintf(su->path, sizeof su->path, "%s", paths[sp - 1]);
+            char *a = buf + 8, *b = strchr(a, ';');
+            *b++ = 0;
+            su->nsetup = parse_acts(a, &su->setup);
+            su->nteardown = parse_acts(b, &su->teardown);
         } else if (!strncmp(buf, "file ", 5)) {
             buf[strcspn(buf, "\n")] = 0;
             current_file = unhex_text(buf + 5);
@@ -269,6 +303,7 @@ int main(int argc, char **argv) {
     }
     if (!reporter) { fprintf(stderr, "no reporter\n"); return 2; }
 
+    if (npre) do_acts(pre, npre);
     int status;
     if (!strcmp(mode, "fork")) { unsetenv("CGREEN_NO_FORK"); status = run_test_suite(root, reporter); }
     else if (!strcmp(mode, "inproc")) { setenv("CGREEN_NO_FORK", "1", 1); status = run_test_suite(root, reporter); }
